@@ -573,6 +573,10 @@ class _ChainedRunnerIterator(Iterable[_ValueT]):
         with_result=self._with_result,
         with_agg_state=self._with_agg,
         with_agg_result=self._with_agg_result,
+        # Only its truthiness is used: whether there is an aggregate to return.
+        state=self._with_agg,
+        total=self._total,
+        single_batch=self._single_batch,
     )
 
 
